@@ -8,6 +8,7 @@ func init() {
 	vRegister("vC05_park", vC05_park)
 	vRegister("vC05_steal", vC05_steal)
 	vRegister("vC05_ringStep", vC05_ringStep)
+	vRegister("vC05_spill", vC05_spill)
 }
 
 type vC05Item struct{ id int }
@@ -101,6 +102,10 @@ func vC05_steal() {
 	rq := newReadyQueue(2)
 	items := [3]*vC05Item{{id: 0}, {id: 1}, {id: 2}}
 	vC05_taken = [4]int{}
+	for i := 0; i < localQueueCap-2; i++ { // the owner's ring already holds cap-2 other items (id 3, not counted)
+		rq.pushLocal(0, &vC05Item{id: 3})
+	}
+	vC05_taken = [4]int{}
 	vGo("w0", func() {
 		for i := 0; i < 3; i++ {
 			rq.pushLocal(0, items[i]) // the third overflows the shrunk local ring into the global ring
@@ -114,9 +119,36 @@ func vC05_steal() {
 	}
 	if vAllDone() {
 		left := rq.locals[0].size + rq.locals[1].size + rq.global.size
-		vAssert(vC05_taken[0]+vC05_taken[1]+vC05_taken[2]+left == 3, "taken + still queued = scheduled (nothing lost or duplicated)")
+		vAssert(vC05_taken[0]+vC05_taken[1]+vC05_taken[2]+vC05_taken[3]+left == 3+localQueueCap-2, "taken + still queued = scheduled (nothing lost or duplicated)")
 		vAssert(int(rq.locals[0].sizeAtomic.Load()) == rq.locals[0].size && int(rq.locals[1].sizeAtomic.Load()) == rq.locals[1].size, "atomic size mirrors agree with the rings")
 		vCover("all-done")
+	}
+	vCover("end")
+}
+
+// the owner's ring is full: its next local re-push spills into the global ring and must wake a parked sibling
+func vC05_spill() {
+	rq := newReadyQueue(2)
+	vC05_taken = [4]int{}
+	spilled := &vC05Item{id: 0}
+	// the owner fills its ring (no wake-up by design: it is the consumer of its own ring), then spills one more item and is
+	// busy afterwards: it never comes back to take. The sibling may have parked before any of this.
+	vGo("w0", func() {
+		for i := 0; i < localQueueCap; i++ {
+			rq.pushLocal(0, &vC05Item{id: 1})
+		}
+		rq.pushLocal(0, spilled)
+	})
+	vGo("w1", func() { vC05_worker(rq, 1, 1) })
+	vRun()
+	vAssert(vC05_taken[0] <= 1, "a scheduled actor is taken by at most one worker")
+	if vStuck() && vThreadDone(0) {
+		vCover("stuck")
+		vAssert(vThreadDone(1), "an idle worker never stays parked while work is queued (spill into the global ring wakes it)")
+		vAssert(int(rq.locals[1].sizeAtomic.Load()) == rq.locals[1].size, "atomic size mirror of the thief's ring agrees")
+	}
+	if vC05_taken[0] == 1 {
+		vCover("spilled-item-taken")
 	}
 	vCover("end")
 }
@@ -124,7 +156,7 @@ func vC05_steal() {
 // sequential inductive step on the local ring: arbitrary valid ring state, one operation, invariant + multiset preserved
 func vC05_ringStep() {
 	var q, d localQueue
-	ids := [4]*vC05Item{{id: 0}, {id: 1}, {id: 2}, {id: 3}}
+	ids := [5]*vC05Item{{id: 0}, {id: 1}, {id: 2}, {id: 3}, {id: 4}}
 	q.head = vNondetInt("head")
 	q.size = vNondetInt("size")
 	vAssume(q.head >= 0 && q.head < localQueueCap && q.size >= 0 && q.size <= localQueueCap)
@@ -143,7 +175,7 @@ func vC05_ringStep() {
 	pushed := false
 	switch op {
 	case 0:
-		pushed = q.pushBack(ids[3])
+		pushed = q.pushBack(ids[4])
 	case 1:
 		got = q.popFront()
 	case 2:
@@ -152,6 +184,7 @@ func vC05_ringStep() {
 	// invariant
 	vAssert(q.size >= 0 && q.size <= localQueueCap && q.tail == (q.head+q.size)%localQueueCap, "ring invariant: tail = head + size (mod cap)")
 	vAssert(int(q.sizeAtomic.Load()) == q.size, "atomic size mirror agrees")
+	vAssert(int(d.sizeAtomic.Load()) == d.size && d.tail == (d.head+d.size)%localQueueCap, "the thief's ring: atomic size mirror and tail agree")
 	n := q.size + d.size
 	if got != nil {
 		n++
@@ -175,8 +208,8 @@ func vC05_ringStep() {
 		e := q.buf[(q.head+i)%localQueueCap]
 		vAssert(e != nil, "live slots are non-nil")
 	}
-	if op == 2 && pre == 3 {
-		vAssert(d.size == 1 && q.size == 1 && d.buf[d.head] == ids[1] && q.buf[q.head] == ids[2], "stealHalf moves the older half in order")
+	if op == 2 && pre >= 3 {
+		vAssert(d.size == 1 && q.size == pre-2 && d.buf[d.head] == ids[1] && q.buf[q.head] == ids[2], "stealHalf moves the older half in order")
 		vCover("stole-two")
 	}
 	vCover("end")
